@@ -109,6 +109,10 @@ def cases(tier, rng):
     # polled on a 2 MiB-stack thread (a tokio worker's stack): the socket must consume them iteratively, deliver
     # the message that follows, and a healthy peer must keep working
     out += flood_cases(6000 if tier == "quick" else 25000)
+    # socket level: READY commands that are well-formed as FRAMES but hostile as handshakes, through the real
+    # handshake code of every socket type (Socket-Type / Identity values of odd sizes, duplicates, unknown and empty
+    # property names, no properties) — rejected or admitted, never a crash; a healthy peer still gets in afterwards
+    out += hostile_handshakes(tier)
     # seeded random bytes
     kr = 2000 if tier == "quick" else 40000
     for _ in range(kr):
@@ -121,6 +125,41 @@ def cases(tier, rng):
 
 FLOOD_PEER = {"PULL": "PUSH", "SUB": "PUB", "DEALER": "ROUTER", "ROUTER": "DEALER", "REP": "REQ", "XPUB": "SUB",
               "REQ": "REP", "PUB": "SUB"}
+
+
+def hostile_handshakes(tier):
+    from vlib import worldgen as wg
+    out = []
+    n = 0
+    st = b"Socket-Type"
+    variants = []
+    for name in [b"", b"X", b"PUSHPULL", b"PUSHPULL9", b"SUBSCRIBER", b"A" * 16, b"B" * 255, b"C" * 256, b"D" * 1000, b"E" * 70000]:
+        variants.append(("type-%d" % len(name), [(st, name)]))
+    for ln in [0, 1, 255, 256, 257, 1000, 70000]:
+        variants.append(("identity-%d" % ln, [(b"Identity", b"i" * ln), (st, None)]))
+        variants.append(("identity-last-%d" % ln, [(st, None), (b"Identity", b"i" * ln)]))
+    variants += [
+        ("no-properties", []),
+        ("duplicate-type", [(st, None), (st, b"BOGUSBOGUSBOGUS")]),
+        ("duplicate-type-first", [(st, b"BOGUSBOGUSBOGUS"), (st, None)]),
+        ("duplicate-identity", [(b"Identity", b"a"), (b"Identity", b"b" * 300), (st, None)]),
+        ("unknown-property", [(b"X-Unknown", b"u" * 300), (st, None)]),
+        ("lower-case-name", [(b"socket-type", None)]),
+        ("long-property-name", [(b"N" * 255, b"v"), (st, None)]),
+        ("many-properties", [(b"P%d" % i, b"v" * i) for i in range(200)] + [(st, None)]),
+    ]
+    for t, pt in FLOOD_PEER.items():
+        for vname, props in (variants if (tier != "quick" or t in ("PULL", "ROUTER", "SUB", "REQ")) else variants[:10]):
+            ps = [(k, (pt.encode() if v is None else v)) for k, v in props]
+            sc = wg.Script()
+            sc.sock(1, t)
+            f = sc.fut()
+            sc.add(f"attach {f} 1 1", f"reveal 1 {wg.hx(G + zmtp.command(b'READY', ps))}", f"poll {f}", f"poll {f}", f"drop {f}", "halves 1")
+            sc.attach(1, 2, pt, b"good")
+            sc.add("halves 2")
+            out.append(Case(f"hostile-ready-{t}-{vname}#{n}", "world", list(sc.ops), ["socket-hostile-ready"]))
+            n += 1
+    return out
 
 
 def flood_cases(k):
@@ -177,6 +216,10 @@ def oracle(case, impl_lines):
             if l.startswith("ABORT") or l.startswith("TIMEOUT"):
                 return f"the process died ({l}) on `{op[:80]}` — abort / stack overflow / hang"
         polls = [l for op, l in zip(case.ops, impl_lines[1:]) if op.startswith("poll")]
+        if "socket-hostile-ready" in case.tags:
+            if polls and "attach" in " ".join(case.ops[-6:]) and not polls[-1].startswith("ready ok id="):
+                return f"after the hostile handshake a healthy peer is no longer admitted: {polls[-1]}"
+            return None
         if not any(l.startswith("ready ok M[") or l == "ready ok" for l in polls[-2:]):
             return f"after the flood the socket no longer delivers: {polls[-2:]}"
         return None
